@@ -105,6 +105,38 @@ def run(ctx):
                       "the in-memory backup table entry is overwritten without the same-name refusal",
                       desc="table store only after the same-name refusal")
 
+    # the name that is tested is the name that is used: no re-definition between the refusal and the writes
+    guards = [c_ for c_ in v.conds(same_name_test)]
+    n_same = 0
+    for gnode in guards:
+        keys = set()
+        for x in ast.walk(gnode.ast):
+            if isinstance(x, ast.Compare) and any(isinstance(o, (ast.In, ast.NotIn)) for o in x.ops) and \
+                    "backups_dict" in norm(x.comparators[0]):
+                keys |= {y.id for y in ast.walk(x.left) if isinstance(y, ast.Name)}
+            if isinstance(x, ast.Call) and isinstance(x.func, ast.Attribute) and x.func.attr in ("get", "__contains__") and x.args \
+                    and "backups_dict" in norm(x.func.value):
+                keys |= {y.id for y in ast.walk(x.args[0]) if isinstance(y, ast.Name)}
+            if isinstance(x, ast.Subscript) and "backups_dict" in norm(x.value):
+                keys |= {y.id for y in ast.walk(x.slice) if isinstance(y, ast.Name)}
+        for kname in keys:
+            at_guard = {id(d) for d in (rd.at(gnode.ast, kname) or [])}
+            users = [(n, c) for (n, c, k) in sinks] + [(n, n.ast) for n in v.cfg.nodes if n.kind == "stmt" and isinstance(n.ast, ast.Assign)
+                                                       and any(isinstance(t, ast.Subscript) and norm(t.value) == "self.backups_dict"
+                                                               for t in n.ast.targets)]
+            for n, c in users:
+                stmt = n.ast
+                if not depends_on(rd, c if isinstance(c, ast.Call) else stmt, stmt, lambda y, kn=kname: isinstance(y, ast.Name) and y.id == kn):
+                    continue
+                n_same += 1
+                at_use = {id(d) for d in (rd.at(stmt, kname) or [])}
+                ctx.check(at_use == at_guard, "R18.2", create.qualname, c, loc(create, c),
+                          "`%s` is given a new value between the existing-backup test and this use: the name that was tested "
+                          "is not the name that is written, so an existing backup (e.g. the default one, for an empty name) "
+                          "is overwritten" % kname, desc="`%s` at `%s` is the value the refusal tested" % (kname, norm(c)[:40]))
+    if guards:
+        ctx.floor("R18.2", "uses of the tested backup name", n_same, 1)
+
     # ---------------- R18.3
     vr = view(ctx, restore)
     rsinks = [(n, c) for (n, c, k) in io_nodes(vr) if k == "copy"]
